@@ -594,6 +594,22 @@ pub fn one_case(r: &mut Rng, g: &mut ExprGen, out: &mut Out, k_subst: usize) {
             s.text = s.text.trim_end_matches(';').to_string() + &format!(" when {{ {cond} }};");
             out.count("record_projection_with_risky_sibling");
         }
+        if c.partial && !c.dropped.is_empty() && r.chance(35) {
+            // tags of an entity that is MISSING from the partial store (the store answers with a residual): the residual
+            // must still be a tag test when re-authorized against the complete store ("n" is both an attribute and a tag key)
+            let mut ds: Vec<&EntityUID> = c.dropped.iter().collect();
+            ds.sort();
+            let u = ds[r.below(ds.len())].to_string();
+            let k = *r.pick(&["n", "k1", "k2"]);
+            let cond = match r.below(4) {
+                0 => format!("{u}.hasTag(\"{k}\")"),
+                1 => format!("!({u}.hasTag(\"{k}\"))"),
+                2 => format!("{u}.hasTag(\"{k}\") && {u}.getTag(\"{k}\") == {u}.getTag(\"{k}\")"),
+                _ => format!("{u} has {k} || {u}.hasTag(\"{k}\")"),
+            };
+            s.text = s.text.trim_end_matches(';').to_string() + &format!(" when {{ {cond} }};");
+            out.count("tag_of_entity_missing_from_partial_store");
+        }
         specs.push(s);
     }
     let order: Vec<usize> = (0..specs.len()).collect();
